@@ -73,6 +73,9 @@ def datasets(seed):
     N = int(r.integers(3100, 3600))
     w, m, v, _ = gen.gmm_params(r, 2, 2, scales=np.ones(2))
     out.append(dict(C=2, D=2, w=w, m=m, v=v, X=r.uniform(-1, 1, size=(N, 2)), y=np.arange(N) % 3))
+    # a one-Gaussian UBM: every session of equal length then has exactly the same zeroth-order statistics
+    w1, m1, v1, _ = gen.gmm_params(r, 1, 2, scales=np.ones(2))
+    out.append(dict(C=1, D=2, w=w1, m=m1, v=v1, X=gen.sample_data(r, w1, m1, v1, 24), y=np.arange(24) % 3))
     return out
 
 
@@ -379,6 +382,14 @@ def search(ctx):
         if f and f["sig"] not in seen:
             seen.add(f["sig"])
             f["input"] = {"estimator": "kmeans_random_seeded", "dataset_seed": ctx.seed + 1, "dataset": k_ % 2, "oracle_seed": ctx.seed * 1000 + 500 + k_}
+            fails.append(f)
+    for est in ("isv", "jfa", "isv_dask"):
+        ctx.count("search:" + est + ":one-gaussian-ubm")
+        ctx.case(["s", est, "C=1"], nontrivial=True)
+        f = oracle(est, data[3], ctx.seed * 1000 + 777)
+        if f and f["sig"] not in seen:
+            seen.add(f["sig"])
+            f["input"] = {"estimator": est, "dataset_seed": ctx.seed + 1, "dataset": 3, "oracle_seed": ctx.seed * 1000 + 777}
             fails.append(f)
     for est in ("kmeans_seeded", "gmm_kmeans_seeded"):
         ctx.count("search:" + est + ":several-thousand-rows")
